@@ -237,6 +237,13 @@ var catalogue = []mutation{
 		c.S.Assets[0] = fx.Assets[2]
 		return true
 	}},
+	{"asset-twin", true, func(c *cand, _ *mctx) bool { // same address, other ledger: an asset's identity is more than its address
+		if len(c.S.Assets) == 0 || c.S.Assets[0] == nil {
+			return false
+		}
+		c.S.Assets[0] = twinAsset{c.S.Assets[0], 1}
+		return true
+	}},
 	{"asset-swap", true, func(c *cand, _ *mctx) bool {
 		if len(c.S.Assets) < 2 {
 			return false
@@ -441,4 +448,22 @@ func apply(start *channel.State, x *mctx, combo []int) (c *cand, ok bool) {
 		}
 	}
 	return c, true
+}
+
+// twinAsset is an asset whose identity is more than its address (like the assets of multi-ledger
+// channels: ledger id + address): it has the address of another asset but lives on another ledger.
+type twinAsset struct {
+	inner  channel.Asset
+	ledger byte
+}
+
+func (a twinAsset) MarshalBinary() ([]byte, error) {
+	b, err := a.inner.MarshalBinary()
+	return append(b, a.ledger), err
+}
+func (a twinAsset) UnmarshalBinary([]byte) error { return nil }
+func (a twinAsset) Address() []byte              { return a.inner.Address() }
+func (a twinAsset) Equal(b channel.Asset) bool {
+	o, ok := b.(twinAsset)
+	return ok && o.ledger == a.ledger && a.inner.Equal(o.inner)
 }
